@@ -62,7 +62,7 @@ def required(tier):
     cover += [f"compared:{f.lower()}_cpcca:{v}" for f in FAMS for v in VARS]
     cover += [f"compared:mca_xx_eof:{v}" for v in VARS]
     cover += [f"compared:complex_on_real:{c}" for c in COMPLEX_ON_REAL]
-    cover += ["compared:spca0_eof", "compared:pca_all_vs_none", "compared:multicca_crosscca"]
+    cover += ["compared:spca0_eof", "compared:pca_all_vs_none", "compared:multicca_crosscca", "multicca:unit_mix"]
     # 'compared:eeof1_eof' is deliberately not promised: on the pinned tree the fit raises (known defect)
     return {"mon": ["post:Decomposer.fit"], "cover": cover}
 
@@ -168,6 +168,10 @@ def _draw(rng, pair=None, sub=None):
             c["fy"]["p"] = c["fy"]["r"] = min(c["fy"]["p"], c["fx"]["p"])
         c["pair"] = pair
         c["sub"] = None
+        if c["dseed"] % 3 == 0 and c["data"] != "rho1":
+            # mixed units inside a field (half of the features 1e4 times larger): canonical correlations do not
+            # depend on units, and the absolute ridge of the multi-set solver stays negligible
+            c["unit_mix"] = [-4, -4] if c["dseed"] % 2 else [-4, 0]
         return c
     raise KeyError(pair)
 
@@ -397,6 +401,15 @@ def _dispatch(xe, case, obs, b, pair, sub, label):
         # singular values of MCA(X, X) == explained variance of EOF(X); both component sets == EOF patterns;
         # scores1 (and scores2) == unnormalised EOF scores
         compare(obs, A, B, cplx, sv_name="mca_sv_vs_eof_explained_variance", pairs=[(0, 0), (0, 1)])
+        # the amplitude-carrying patterns (normalized=False) are patterns too: same per-mode lengths, same direction
+        c, fd = b["coords"][0], b["fdims"][0]
+        Pe = xu.feature_matrix(_quiet(eof.components, normalized=False).sortby("mode"), fd, c)
+        Pm = [xu.feature_matrix(x.sortby("mode"), fd, c) for x in _quiet(mca.components, normalized=False)]
+        if Pe.shape == Pm[0].shape == Pm[1].shape and np.isfinite(Pe).all():
+            g = phases(A["comps"][0], B["comps"][0], cplx)
+            for j in (0, 1):
+                obs.close(f"components{j + 1}_unnormalized", Pm[j] * g, Pe, TOL, scale=max(float(np.abs(Pe).max()), np.finfo(float).tiny), tags={"op": "compare", "symptom": "components_differ", "quantity": "components_unnormalized"})
+            obs.count("relation:unnormalized_patterns")
         obs.close("oracle_explained_variance", A["sv"], lam[:k], TOL, scale=max(lam[0], np.finfo(float).tiny), tags={"op": "compare", "symptom": "values_differ", "quantity": "eof_explained_variance_vs_oracle"})
         return
 
@@ -496,6 +509,8 @@ def _dispatch(xe, case, obs, b, pair, sub, label):
         r_cross = np.real(np.diag(R.corr_matrix(S1, S2)))
         obs.nontrivial = True
         obs.cell("compared:" + label)
+        if case.get("unit_mix"):
+            obs.cell("multicca:unit_mix")
         obs.close("paired_variate_correlations", r_multi, r_cross, 1e-4, scale=1.0, tags={"op": "compare", "symptom": "canonical_correlations_differ", "quantity": "pearson_r"})
         # both against the independent canonical correlations (QR + SVD)
         Zx = oracle.preprocess(b["M"][0], True, False, b["w_cos"][0], None)
